@@ -242,6 +242,9 @@ func makeValue(t reflect.Type, r *sm64, o ValueOpts, depth int) reflect.Value {
 			if depth > 4 {
 				continue
 			}
+			if depth > 0 && nilElem(f.Type, r, o) {
+				continue // a struct VALUE whose nil-able field is nil (nothing "unset" about it)
+			}
 			v.Field(i).Set(makeValue(f.Type, r, o, depth+1))
 		}
 	default:
